@@ -1,7 +1,7 @@
 import TapkeeVerif.Proofs.CoverDescend
 /-!
 C02, cover tree batch query, part 8: `copy_cover_sets` over all scales, the recursion
-`internal_batch_nearest_neighbor`, and **`cover_query_exact`**.
+`internal_batch_nearest_neighbor`, and **`cover_query_exact_partial`**.
 -/
 namespace TapkeeVerif.CoverTree
 open List TapkeeVerif.VpTree
@@ -407,7 +407,7 @@ theorem internalBatch_good (hm : IsMetric δ) (hK : 1 ≤ K0) (leafScale : Nat) 
               exact ⟨by omega, this⟩
         exact internalBatch_good hm hK leafScale hperm fuel Q _ _ _ _ _ Off' res hInv' h
 
-/-- **`cover_query_exact`** : on a well-formed tree over the samples `0..N-1`, for every metric, if the batch
+/-- **`cover_query_exact_partial`** : on a well-formed tree over the samples `0..N-1`, for every metric, if the batch
     query answers then it returns for every sample `q` at least one result `q :: cands`, and for every result the
     candidate list is duplicate free and contains every sample near `q` (`Near`: no `K0` distinct samples are all
     strictly closer) — which is what `find_neighbors_covertree_impl` needs to select the exact `K0 - 1` nearest
